@@ -181,7 +181,10 @@ def table_cases(draw, tier):
 @st.composite
 def pipeline_cases(draw, tier):
     c = draw(gen.hop_systems(tier=tier, min_sites=2, max_sites=5, max_diff=3, max_frames=16 if tier == 'quick' else 40))
-    c['cutoff'] = draw(st.sampled_from([1, 1, 2.5, 6.0]))
+    M_ = np.array(c['lattice']['matrix'])
+    D_ = oracle.min_image_dist(c['sites']['frac'], c['sites']['frac'], M_)
+    dd_ = sorted(set(np.round(D_[np.triu_indices(len(D_), 1)], 6).tolist()))
+    c['cutoff'] = draw(st.one_of(st.sampled_from([1, 1, 2.5, 6.0]), st.sampled_from(dd_).map(lambda x: float(x * 1.02)), st.sampled_from(dd_).map(lambda x: float(x * 0.98))))
     c['sites_cell_scale'] = draw(st.sampled_from([1.0, 1.0, 0.96, 1.04]))
     return c
 
@@ -231,7 +234,7 @@ SUBS = [
         n={'quick': 200, 'thorough': 5000}, shards={'quick': 12, 'thorough': 16}),
     Sub(name='pipeline', kind='hyp', run=run_pipeline, strategy=pipeline_cases,
         rule='hopping trajectories through transitions/Jumps/collective(max_dist): window = ceil(1/(attempt frequency x time step)), pairs vs model on the real jump table',
-        n={'quick': 60, 'thorough': 1000}, shards={'quick': 4, 'thorough': 16}),
+        n={'quick': 80, 'thorough': 1000}, shards={'quick': 8, 'thorough': 16}),
     Sub(name='fuzz-collective', kind='fuzz', run=run_table, target='collective',
         rule='thorough tier only: atheris (libFuzzer) coverage-guided campaign on the Python-level classifier with the property oracle inside the target; bytes are decoded into a structured case; empty and seeded corpus shards; non-trivial counted but not de-duplicated',
         n={'quick': 0, 'thorough': 60000}, shards={'quick': 1, 'thorough': 16}),
